@@ -430,6 +430,9 @@ func runPipeSeq(c *ctx) error {
 				}
 			case ek < 14: // queue a downlink message through the API object
 				n := 1 + r.Intn(60)
+				if r.Intn(10) == 0 {
+					n = 55 + r.Intn(200) // around and over the payload limits of the data rates (59 / 123 / 230)
+				}
 				m := queuedMsg{created: h.ts, port: 1 + r.Intn(223), data: r.Bytes(n), ack: r.Intn(2) == 0}
 				err := rig.st.CreateDownstreamMessage(d.eui, model.DownstreamMessage{DeviceEUI: d.eui, Data: fmt.Sprintf("%x", m.data), Port: uint8(m.port), Ack: m.ack, CreatedTime: m.created})
 				a, lerr := h.lean("submit", fmt.Sprintf("pipe.submit dev=%s created=%d port=%d data=%s ack=%s", hx.H(d.eui.Octets[:]), m.created, m.port, hx.H(m.data), b01(m.ack)))
